@@ -164,7 +164,7 @@ def check(case, rec):
                                 f"expected {exp_tree}")
             act = o["mode"] % 5
             # keep the name the in-place operator rebinds, as user code does (z_ref += v; ...; z_ref += w)
-            ref = do_write(ref, act, o["val"], default, as_element=(o["sel"][3] % 4 == 3 and act in (1, 2, 3)))
+            ref = do_write(ref, act, o["val"], default, as_element=(o["sel"][3] % 4 == 3 and act in (2, 3)))
             apply_write(mdl, pt, act, o["val"], default)
             if act:
                 nwrites += 1
